@@ -186,4 +186,174 @@ theorem run_append : ∀ (es es' : List Event) (v : V), run v (es ++ es') = run 
   | nil => intro es' v; rfl
   | cons e es ih => intro es' v; exact ih es' (step v e)
 
+/-! ## the asserts -/
+
+theorem tryFinal_panicked (v : V) (slot hash : Nat) (h : v.firstUnpruned ≤ slot) :
+    (v.tryFinal slot hash).panicked = v.panicked := by
+  unfold V.tryFinal
+  rw [if_neg (Nat.not_lt.mpr h)]
+  simp only []
+  split <;> rfl
+
+theorem tryNotar_panicked (v : V) (slot : Nat) (b : BlockInfo) (h : v.firstUnpruned ≤ slot) :
+    (v.tryNotar slot b).1.panicked = v.panicked := by
+  unfold V.tryNotar
+  rw [if_neg (Nat.not_lt.mpr h)]
+  split
+  · rfl
+  · split
+    · simp only []
+      rw [tryFinal_panicked _ _ _ (by simpa using h)]
+      rfl
+    · rfl
+
+theorem skipSlots_panicked : ∀ (l : List Nat) (v : V), (v.skipSlots l).panicked = v.panicked := by
+  intro l
+  induction l with
+  | nil => intro v; rfl
+  | cons s rest ih =>
+    intro v; unfold V.skipSlots; split
+    · exact ih v
+    · rw [ih]; rfl
+
+theorem trySkipWindow_panicked (v : V) (slot : Nat) (h : v.firstUnpruned ≤ slot) :
+    (v.trySkipWindow slot).panicked = v.panicked := by
+  unfold V.trySkipWindow
+  rw [if_neg (Nat.not_lt.mpr h)]
+  exact skipSlots_panicked _ _
+
+theorem pending_live {v : V} (hv : Inv none v) {s : Nat} {b : BlockInfo}
+    (hb : (v.getS s).pendingBlock = some b) : v.firstUnpruned ≤ s := by
+  cases hl : lookup v.slots s with
+  | none => simp [V.getS, hl] at hb
+  | some st => exact hv.keys s st hl
+
+theorem checkPendingLoop_panicked : ∀ (l : List Nat) {v : V}, Inv none v →
+    (v.checkPendingLoop l).panicked = v.panicked := by
+  intro l
+  induction l with
+  | nil => intro v _; rfl
+  | cons s rest ih =>
+    intro v hv
+    unfold V.checkPendingLoop
+    split
+    · rename_i b hb
+      rw [ih (hv.tryNotar s b ((hv.slot s).pendingWit b hb)), tryNotar_panicked _ _ _ (pending_live hv hb)]
+    · exact ih hv
+
+theorem emitAll_panicked : ∀ (l : List Out) (v : V), (v.emitAll l).panicked = v.panicked := by
+  intro l
+  induction l with
+  | nil => intro v; rfl
+  | cons o rest ih => intro v; unfold V.emitAll; rw [ih]; rfl
+
+theorem setTimeouts_panicked (v : V) (s : Nat) (h : s % W = 0) : (v.setTimeouts s).panicked = v.panicked := by
+  unfold V.setTimeouts; rw [if_pos h]; rfl
+
+theorem firstInWindow_mod (s : Nat) : firstInWindow s % W = 0 := Nat.mul_mod_left _ _
+
+/-- the environment assumption under which Votor never panics: the pool announces `ParentReady`
+    only for the first slot of a window (`PoolEvent::ParentReady` doc comment; `set_timeouts` asserts it) -/
+def Event.wellFormed : Event → Prop
+  | .parentReady s _ _ => s % W = 0
+  | _ => True
+
+theorem Inv.addParent {v : V} (hv : Inv none v) (slot ps ph : Nat) (hs : v.firstUnpruned ≤ slot)
+    (hmem : .ev (.parentReady slot ps ph) ∈ v.log) :
+    Inv none (v.upd slot (fun s => { s with parentsReady := insertParent s.parentsReady (ps, ph) })) := by
+  have hl := hv.slot slot
+  simp only [hs] at hl
+  obtain ⟨l1, l2, l3, l4, l5, l6, l7, l8, l9, l10, l11⟩ := hl
+  refine hv.updS slot _ hs (fun _ _ h => h) ?_
+  constructor
+  case parentWit =>
+    intro p hp
+    rcases mem_insertParent hp with rfl | h
+    · exact Or.inr hmem
+    · exact l10 p h
+  all_goals grind
+
+theorem handle_panicked {v : V} (hv : Inv none v) (e : Event) (hmem : .ev e ∈ v.log)
+    (hign : v.ignores e = false) (hwf : e.wellFormed) : (v.handle e).panicked = v.panicked := by
+  cases e with
+  | parentReady slot ps ph =>
+    simp only [V.ignores, Bool.or_eq_false_iff, decide_eq_false_iff_not] at hign
+    have hs : v.firstUnpruned ≤ slot := Nat.le_of_not_lt hign.1
+    simp only [V.handle]
+    rw [setTimeouts_panicked _ _ hwf, V.checkPending, checkPendingLoop_panicked _ (hv.addParent slot ps ph hs hmem)]
+    rfl
+  | safeToNotar slot hash =>
+    simp only [V.ignores, Bool.or_eq_false_iff, decide_eq_false_iff_not] at hign
+    simp only [V.handle, upd_panicked]
+    rw [trySkipWindow_panicked _ _ (by simpa using Nat.le_of_not_lt hign.1)]; rfl
+  | safeToSkip slot =>
+    simp only [V.ignores, Bool.or_eq_false_iff, decide_eq_false_iff_not] at hign
+    simp only [V.handle, upd_panicked]
+    rw [trySkipWindow_panicked _ _ (by simpa using Nat.le_of_not_lt hign.1)]; rfl
+  | cert kind slot hash =>
+    simp only [V.ignores, decide_eq_false_iff_not] at hign
+    have hs : v.firstUnpruned ≤ slot := Nat.le_of_not_lt hign
+    cases kind with
+    | notar =>
+      simp only [V.handle, emit_panicked]
+      rw [tryFinal_panicked _ _ _ (by simpa using hs)]; rfl
+    | final =>
+      simp only [V.handle, emit_panicked]
+      show (v.setTimeouts (firstInWindow slot)).panicked = _
+      exact setTimeouts_panicked _ _ (firstInWindow_mod slot)
+    | fastFinal =>
+      simp only [V.handle, emit_panicked]
+      show (v.setTimeouts (firstInWindow slot)).panicked = _
+      exact setTimeouts_panicked _ _ (firstInWindow_mod slot)
+    | skip => rfl
+    | notarFallback => rfl
+  | standstill slot relay => exact emitAll_panicked _ _
+  | firstShred slot => rfl
+  | invalidBlock slot =>
+    simp only [V.ignores, Bool.or_eq_false_iff, decide_eq_false_iff_not] at hign
+    exact trySkipWindow_panicked _ _ (by have := fu_le_hfcs v; omega)
+  | block slot b =>
+    simp only [V.ignores, Bool.or_eq_false_iff, decide_eq_false_iff_not] at hign
+    have hs : v.firstUnpruned ≤ slot := by have := fu_le_hfcs v; omega
+    simp only [V.handle]
+    split
+    · rfl
+    · split
+      · rw [V.checkPending, checkPendingLoop_panicked _ (hv.tryNotar slot b hmem), tryNotar_panicked _ _ _ hs]
+      · rw [upd_panicked, tryNotar_panicked _ _ _ hs]
+  | timeout slot =>
+    simp only [V.ignores, Bool.or_eq_false_iff, decide_eq_false_iff_not] at hign
+    simp only [V.handle]
+    split
+    · rfl
+    · exact trySkipWindow_panicked _ _ (by have := fu_le_hfcs v; omega)
+  | timeoutCrashed slot =>
+    simp only [V.ignores, Bool.or_eq_false_iff, decide_eq_false_iff_not] at hign
+    simp only [V.handle]
+    split
+    · rfl
+    · exact trySkipWindow_panicked _ _ (by have := fu_le_hfcs v; omega)
+
+theorem step_panicked {v : V} (hv : Inv none v) (e : Event) (hwf : e.wellFormed) :
+    (step v e).panicked = v.panicked := by
+  unfold AgModel.Votor.step
+  split
+  · rfl
+  · simp only []
+    split
+    · rfl
+    · rename_i hi
+      have h1 : Inv none (v.logEv e) := hv.note (.ev e) rfl trivial
+      exact handle_panicked h1 e (by simp [V.logEv]) (by simpa using hi) hwf
+
+theorem run_panicked : ∀ (es : List Event) {v : V}, Inv none v → (∀ e ∈ es, e.wellFormed) →
+    (run v es).panicked = v.panicked := by
+  intro es
+  induction es with
+  | nil => intro v _ _; rfl
+  | cons e es ih =>
+    intro v hv hwf
+    show (run (step v e) es).panicked = _
+    rw [ih (hv.step e) (fun e' he' => hwf e' (by simp [he'])), step_panicked hv e (hwf e (by simp))]
+
 end AgModel.Votor
